@@ -466,10 +466,10 @@ def step_strategy(runner: Runner):
 
 
 STREAMS = {
-    "faults": Stream("faults", machine=(config_strategy, step_strategy, Runner), quick=2400, thorough=60000, shards_quick=16, shards_thorough=16,
+    "faults": Stream("faults", machine=(config_strategy, step_strategy, Runner), quick=2400, thorough=24000, shards_quick=16, shards_thorough=16,
                      max_steps=14, max_steps_thorough=30),
-    "cast_overflow": Stream("cast_overflow", machine=(config_strategy_cast, step_strategy, Runner), quick=400, thorough=10000, shards_quick=8, shards_thorough=16,
+    "cast_overflow": Stream("cast_overflow", machine=(config_strategy_cast, step_strategy, Runner), quick=400, thorough=4000, shards_quick=8, shards_thorough=16,
                             max_steps=8, max_steps_thorough=16),
-    "nan_gradients": Stream("nan_gradients", machine=(config_strategy_nan, step_strategy, Runner), quick=600, thorough=15000, shards_quick=8, shards_thorough=16,
+    "nan_gradients": Stream("nan_gradients", machine=(config_strategy_nan, step_strategy, Runner), quick=600, thorough=6000, shards_quick=8, shards_thorough=16,
                             max_steps=10, max_steps_thorough=20),
 }
